@@ -65,7 +65,12 @@ def _gen_history(rng):
         nf = [None, 3, 4, 5, 6][int(rng.integers(0, 5))]
         if hist and rng.integers(0, 5) == 0:
             mu2 = hist[-1]["mu2"]  # same scale as the previous query, (possibly) another nf
-        hist.append(dict(mu2=mu2, nf=nf, mutate=str(rng.choice(["add", "nan", "zero", "none"], p=[0.35, 0.35, 0.2, 0.1])), api=str(rng.choice(["a", "a", "a_s", "a_em"]))))
+        f32 = False
+        if rng.integers(0, 12) == 0:
+            # scale handed over as a NumPy float32 scalar (value exactly representable); a later query may
+            # repeat the same value as a plain float
+            mu2, f32 = float(np.float32(mu2)), True
+        hist.append(dict(mu2=mu2, nf=nf, f32=f32, mutate=str(rng.choice(["add", "nan", "zero", "none"], p=[0.35, 0.35, 0.2, 0.1])), api=str(rng.choice(["a", "a", "a_s", "a_em"]))))
     p["history"] = hist
     return p
 
@@ -117,11 +122,11 @@ def _eval(p):
         row = dict(i=i, mu2=q["mu2"], nf=q["nf"], api=q["api"], mutate=q["mutate"])
         try:
             if q["api"] == "a":
-                r = sc.a(q["mu2"], q["nf"])
+                r = sc.a(np.float32(q["mu2"]) if q.get("f32") else q["mu2"], q["nf"])
             elif q["api"] == "a_s":
-                r = sc.a_s(q["mu2"], q["nf"])
+                r = sc.a_s(np.float32(q["mu2"]) if q.get("f32") else q["mu2"], q["nf"])
             else:
-                r = sc.a_em(q["mu2"], q["nf"])
+                r = sc.a_em(np.float32(q["mu2"]) if q.get("f32") else q["mu2"], q["nf"])
             row["got"] = _bits(r)
             row["val"] = np.asarray(r, dtype=float).ravel().tolist()
         except Exception as e:
@@ -131,11 +136,11 @@ def _eval(p):
         try:
             fr = _mk(p)
             if q["api"] == "a":
-                f = fr.a(q["mu2"], q["nf"])
+                f = fr.a(np.float32(q["mu2"]) if q.get("f32") else q["mu2"], q["nf"])
             elif q["api"] == "a_s":
-                f = fr.a_s(q["mu2"], q["nf"])
+                f = fr.a_s(np.float32(q["mu2"]) if q.get("f32") else q["mu2"], q["nf"])
             else:
-                f = fr.a_em(q["mu2"], q["nf"])
+                f = fr.a_em(np.float32(q["mu2"]) if q.get("f32") else q["mu2"], q["nf"])
             row["fresh"] = _bits(f)
             row["fresh_val"] = np.asarray(f, dtype=float).ravel().tolist()
         except Exception as e:
